@@ -30,7 +30,9 @@ Record entry := mkE { e_kind : Z; e_calls : Z; e_nt : Z; e_stamp : Z }.
 
 Inductive cb :=
 | Nop                                                   (* callback=None / ConvertCallback(None) *)
-| Rec (b : base) (stop_at : Z) (log : list entry)       (* recorder; _on_step returns n_calls <> stop_at *)
+| Rec (b : base) (stop_at : Z) (log : list entry)       (* recorder; _on_step returns n_calls <> stop_at.  The model's boolean is the
+                                                           TRUTHINESS of the returned Python value (False, np.bool_(False), th.tensor(False)
+                                                           all ask to stop): `x and y` / `if not x` only look at truthiness *)
 | CList (b : base) (l : list cb)                        (* CallbackList *)
 | EveryN (b : base) (n last : Z) (fired : list Z) (c : cb)   (* EveryNTimesteps; [fired] is a ghost log of trigger times *)
 | EvalC (b : base) (freq : Z) (best : option Z) (evals : list Z) (done_at : list (Z * Z))
